@@ -532,13 +532,21 @@ def run_check(prop: str, tier: str, seed: int, runs: int | None = None, workers:
             except (BrokenProcessPool, FutTimeout) as ex:
                 raise HarnessError(f"shrink failed: {ex!r}")
             path = os.path.join(ROOT, "replays", prop, f"{sh}.json")
+
+            def _good(o_):
+                # reproduced, and still there after shrinking (a violation fed by what earlier runs
+                # left behind in the worker process can come and go while the shrinker runs)
+                return bool(o_.get("reproduced")) and any(site_hash(x["site"]) == sh for x in o_.get("violations", ()))
+
+            if not _good(out):
+                out = dict(out, reproduced=False)
             if not out.get("reproduced"):
                 # other occurrences of the same site may be self-contained
                 for v2 in by_site[sh][1:4]:
                     rcfg2 = dict(cfg, fault_mode=v2["fault_mode"], run_index=v2["run_index"])
                     rcfg2.pop("class_offset", None)
                     out2 = pools.submit(0, job_shrink, prop, v2["cls"], rcfg2, v2["scen"], v2["sched"], v2["site"], getattr(mod, "SHRINK_EVALS", 300), getattr(mod, "SHRINK_BUDGET_S", 150)).result(timeout=900)
-                    if out2.get("reproduced"):
+                    if _good(out2):
                         v, rcfg, out = v2, rcfg2, out2
                         break
             if not out.get("reproduced"):
